@@ -224,9 +224,12 @@ func generate(rnd *rand.Rand, thorough bool) []*Prog {
 			// --- block merge / if-else merge: the intersection keeps the minimum bound
 			if p := l - w - 8; p >= 0 {
 				for c := uint32(0); c < 2; c++ {
-					for _, o := range [][3]uint32{{0, 8, 8}, {0, 8, 9}, {0, 9, 8}, {8, 0, 8}, {8, 8, 9}, {0, 0, 9}, {0, 0, 8}, {0, 9, 9}, {9, 0, 9}, {0, 65536, 65536}, {65536, 0, 65536}, {0, 0x7fffffff, 0x7fffffff}} {
+					for _, o := range [][3]uint32{{0, 8, 8}, {0, 8, 9}, {0, 9, 8}, {8, 0, 8}, {8, 8, 9}, {0, 0, 9}, {0, 0, 8}, {0, 9, 9}, {9, 0, 9}, {0, 65536, 65536}, {65536, 0, 65536}, {0, 0x7fffffff, 0x7fffffff}, {0, 65536, 9}, {0, 16, 9}, {65536, 65536, 9}, {0, 0x7fffffff, 9}, {0, 0xfffffff0, 9}} {
 						mk("blockmerge", uint32(p), c, Stmt{K: "block", Body: []Stmt{acc(op, "p", 0, o[0], val()), {K: "brif", B: 0}, acc(op, "p", 0, o[1], val())}}, acc(op, "p", 0, o[2], val()))
 						mk("ifelse", uint32(p), c, Stmt{K: "if", Body: []Stmt{acc(op, "p", 0, o[0], val())}, Else: []Stmt{acc(op, "p", 0, o[1], val())}}, acc(op, "p", 0, o[2], val()))
+						// access only in the then-arm of an if without else, then a smaller/equal/larger ceiling after the merge
+						mk("ifthen", uint32(p), c, Stmt{K: "if", Body: []Stmt{acc(op, "p", 0, o[1], val())}}, acc(op, "p", 0, o[2], val()))
+						mk("ifthen2", uint32(p), c, Stmt{K: "if", Body: []Stmt{acc(op, "p", 0, o[0], val()), acc(op, "p", 0, o[1], val())}}, acc(op, "p", 0, o[2], val()), acc(op, "p", 0, o[1], val()))
 						mk("nested", uint32(p), c, Stmt{K: "block", Body: []Stmt{acc(op, "p", 0, o[0], val()),
 							{K: "block", Body: []Stmt{{K: "brif", B: 1}, acc(op, "p", 0, o[1], val())}}, acc(op, "p", 0, o[1], val())}}, acc(op, "p", 0, o[2], val()))
 					}
